@@ -667,3 +667,27 @@ Fixpoint stored (crc : N) (recs : list (N * option bytes)) : list wrecord :=
     let crc' := crc_update crc (data_or_nil d) in
     {| r_type := ty; r_crc := crc'; r_data := d |} :: stored crc' rest
   end.
+
+Definition stored_rec (crc : N) (x : N * option bytes) : wrecord :=
+  {| r_type := fst x; r_crc := crc_update crc (data_or_nil (snd x)); r_data := snd x |}.
+Definition payload_of (crc : N) (x : N * option bytes) : bytes := record_marshal (stored_rec crc x).
+Definition frame_of (crc : N) (x : N * option bytes) : bytes := frame (payload_of crc x).
+
+(* would decodeRecord accept this frame body (n = record bytes, the rest is padding)? *)
+Definition accepts (crc : N) (n : N) (body : bytes) : bool :=
+  match record_unmarshal (btake n body) with
+  | POk r => (r_type r =? c_crcType) || (r_crc r =? crc_update crc (data_or_nil (r_data r)))
+  | PErr _ => false
+  end.
+
+(* the body of a frame of which only the first j >= 8 bytes (length field included) were written *)
+Definition torn_body (crc : N) (x : N * option bytes) (j : N) : bytes :=
+  let p := payload_of crc x in
+  let full := p ++ zeros (frame_pad (blen p)) in
+  btake (j - 8) full ++ zeros (blen full - (j - 8)).
+
+(* NoCrcCollision for a cut inside a frame body: the zero-filled variant either is the frame itself
+   (only zero bytes were lost) or is not accepted by the decoder *)
+Definition no_crc_collision_cut (crc : N) (x : N * option bytes) (j : N) : Prop :=
+  let p := payload_of crc x in
+  torn_body crc x j = p ++ zeros (frame_pad (blen p)) \/ accepts crc (blen p) (torn_body crc x j) = false.
